@@ -9,6 +9,7 @@ import (
 	"strconv"
 	"sync"
 	"verif/mc"
+	"verif/ref"
 
 	"verif/ev"
 	"verif/gen"
@@ -94,6 +95,22 @@ func init() {
 				}
 				if msg := mc.PartitionCheck(o.Lex); msg != "" {
 					r.Violate("c18emit", o.Text, "emitted transition table: "+msg+"\n  grammar: "+oneLine(o.Text), map[string]any{"grammar": o.Text})
+					return
+				}
+				// exactness: every emitted class must lie on one side of every literal and range expected in its state -
+				// the product of the emitted table with the reference automaton closes only if no class straddles one
+				g := gs[o.Idx]
+				reserved := false
+				for _, l := range strLits(g) {
+					if l == "INVALID" || l == "\u241a" || l == "error" || l == "empty" {
+						reserved = true // (shares a reserved token number: known finding of C10, not a matter of classes)
+					}
+				}
+				if lr, err := ref.NewLexRef(g.Lex, strLits(g)); err == nil && !reserved {
+					if res := mc.LexProduct(o.Lex, o.Tok.TypeMap, lr, false); res.Mismatch != "" {
+						r.Violate("c18emit", "exact "+o.Text, fmt.Sprintf("emitted transition table: the classes of a state are not the exact partition of what its items expect: %s (witness %q)\n  grammar: %s", res.Mismatch, string(res.Witness), oneLine(o.Text)), map[string]any{"grammar": o.Text})
+					}
+					r.Add("emitted_tables_compared_with_reference", 1)
 				}
 			})
 		}
